@@ -18,6 +18,7 @@ def table(root, title):
     print()
 table('/verif/seeded', '**Round 1** (`seeded/<ID>/`)')
 if os.path.isdir('/verif/seeded/round2'): table('/verif/seeded/round2', '**Round 2** (`seeded/round2/<ID>/`)')
+if os.path.isdir('/verif/seeded/round3'): table('/verif/seeded/round3', '**Round 3** (`seeded/round3/<ID>/`, twelve properties)')
 print('**Reverse-of-fix seeds** (`seeded/regress-<commit>/`, quick tier):')
 print()
 print('| commit | property | result |')
